@@ -1315,7 +1315,8 @@ func (c *inlCtx) tryCall(st ast.Stmt, call *ast.CallExpr, kind callKind, as *ast
 		}
 		return "", false
 	}
-	// names declared inside the callee body (capture check for substituted arguments)
+	// names declared inside the callee body (capture check for substituted arguments); named results are declared
+	// at the top of the inlined block and capture a target of the same name just the same
 	declared := map[string]bool{}
 	ast.Inspect(body, func(n ast.Node) bool {
 		if id, ok := n.(*ast.Ident); ok {
@@ -1325,6 +1326,15 @@ func (c *inlCtx) tryCall(st ast.Stmt, call *ast.CallExpr, kind callKind, as *ast
 		}
 		return true
 	})
+	if ft.Results != nil {
+		for _, fl := range ft.Results.List {
+			for _, nm := range fl.Names {
+				if nm.Name != "_" {
+					declared[nm.Name] = true
+				}
+			}
+		}
+	}
 	argIdents := func(e ast.Expr) []string {
 		var out []string
 		ast.Inspect(e, func(n ast.Node) bool {
@@ -3296,6 +3306,68 @@ func forwardPointers(p *Prog, pk *packages.Package, touched map[string]bool) (ma
 				}
 				return true
 			})
+			// a local function variable bound once to a method value (`decode := dec.Decode`) and only ever called:
+			// the receiver is kept in a local of its own and the calls become method calls again
+			for _, v := range order {
+				if _, isFn := v.Type().Underlying().(*types.Signature); !isFn || len(defs[v]) != 1 || assigned[v] > 0 {
+					continue
+				}
+				df := defs[v][0]
+				ds, isDecl := df.stmt.(*ast.DeclStmt)
+				sel, isSel := ast.Unparen(df.rhs).(*ast.SelectorExpr)
+				if !isDecl || !isSel {
+					continue
+				}
+				if sl := info.Selections[sel]; sl == nil || sl.Kind() != types.MethodVal {
+					continue
+				}
+				if gd := ds.Decl.(*ast.GenDecl); len(gd.Specs) != 1 || len(gd.Specs[0].(*ast.ValueSpec).Names) != 1 {
+					continue
+				}
+				recvName := v.Name() + "_recv"
+				clash := false
+				ast.Inspect(fd, func(n ast.Node) bool {
+					if id, isId := n.(*ast.Ident); isId && id.Name == recvName {
+						clash = true
+					}
+					return !clash
+				})
+				if clash {
+					continue
+				}
+				var edits []inlineEdit
+				var stack []ast.Node
+				bad := false
+				ast.Inspect(fd.Body, func(n ast.Node) bool {
+					if n == nil {
+						stack = stack[:len(stack)-1]
+						return true
+					}
+					if id, isId := n.(*ast.Ident); isId && info.Uses[id] == types.Object(v) {
+						parent := stack[len(stack)-1]
+						if call, isCall := parent.(*ast.CallExpr); isCall && call.Fun == ast.Expr(id) {
+							edits = append(edits, inlineEdit{tf.Offset(id.Pos()), tf.Offset(id.End()), recvName + "." + sel.Sel.Name})
+						} else if as, isAs := parent.(*ast.AssignStmt); isAs && len(as.Lhs) == 1 && len(as.Rhs) == 1 && as.Rhs[0] == ast.Expr(id) {
+							if l, isL := as.Lhs[0].(*ast.Ident); !isL || l.Name != "_" {
+								bad = true
+							} else {
+								edits = append(edits, inlineEdit{tf.Offset(as.Pos()), tf.Offset(as.End()), "_ = " + recvName})
+							}
+						} else {
+							bad = true
+						}
+					}
+					stack = append(stack, n)
+					return true
+				})
+				if bad || len(edits) == 0 {
+					continue
+				}
+				edits = append(edits, inlineEdit{tf.Offset(ds.Pos()), tf.Offset(ds.End()), recvName + " := " + text(sel.X) + "\n_ = " + recvName})
+				out[file] = append(out[file], edits...)
+				done = append(done, funcKey(pk, fd)+" <- method value "+v.Name()+" = "+text(sel)+" (receiver kept, calls direct)")
+				chosen[v] = true
+			}
 		nextVar:
 			for _, v := range order {
 				if _, isPtr := v.Type().Underlying().(*types.Pointer); !isPtr || len(defs[v]) != 1 {
